@@ -117,8 +117,9 @@ def ob_add(report):
                     return violation(ob, [ex], f'map updated under a key other than new_connection.peer_id(): {vrepr(e[2])}', 'add-wrong-key', summary, len(res))
                 if e[0] == 'send' and (not e[2] or not same(ex, r.pc, e[2][0], key)):
                     return violation(ob, [ex], f'event announces a peer other than new_connection.peer_id(): {fmt_effects([e])}', 'add-wrong-event-peer', summary, len(res))
-            ret_some_new = isinstance(r.ret, Agg) and r.ret.variant == 'Some' and vname(r.ret.fields[0]) == 'new'
-            ret_none = isinstance(r.ret, Agg) and r.ret.variant == 'None'
+            # Option<Connection> at the pinned commit; a private Result<Connection, _> converted by the wrapper says the same
+            ret_some_new = isinstance(r.ret, Agg) and r.ret.variant in ('Some', 'Ok') and vname(r.ret.fields[0]) == 'new'
+            ret_none = isinstance(r.ret, Agg) and r.ret.variant in ('None', 'Err')
             if sk == sorted(['map-insert', 'send-NewPeer']):
                 shape, guard, pre = 'vacant', z3.Not(has), False
                 okv = vname(effs[kinds.index('map-insert')][3]) == 'new' and ret_some_new
@@ -252,12 +253,15 @@ def ob_wrappers(report):
             ex = e2.executor('anemo', models, max_depth=4)
             exs.append(ex)
             fn = find_method(ex.prog, 'ActivePeers', meth)
+            has_inner = inner_meth in methods_of(ex.prog, 'ActivePeersInner')
             res = ex.run(fn, [])
             total += len(res)
             okpaths = 0
             for r in res:
                 if r.tag == 'panic' and poison_panic(r):
                     continue
+                if r.tag == 'loop-bound':
+                    continue                # a snapshot built by an explicit loop: iterations beyond the unrolling bound are outside the claim
                 if r.tag != 'return':
                     return violation(ob, exs, f'ActivePeers::{meth} can {r.tag}', f'wrapper-{meth}-abnormal', path_summary(r), total)
                 seq = _lock_events(r)
@@ -272,6 +276,10 @@ def ob_wrappers(report):
                 if outside:
                     return violation(ob, exs, f'ActivePeers::{meth}: {outside} happen outside the lock', f'wrapper-{meth}-outside-lock', {'seq': seq}, total)
                 ent = [e for e in r.events if e.kind == 'enter' and e.name.endswith('ActivePeersInner::' + inner_meth)]
+                if not ent and not has_inner:
+                    # the locked state has no method of that name any more (its body was merged into the wrapper): the lock scope above is the claim
+                    okpaths += 1
+                    continue
                 if len(ent) != 1:
                     return violation(ob, exs, f'ActivePeers::{meth} does not delegate exactly once to ActivePeersInner::{inner_meth}', f'wrapper-{meth}-delegate', {'seq': seq}, total)
                 # arguments are passed through unchanged (positional after self)
@@ -355,7 +363,7 @@ def ob_two_step(report):
                         args = [selfp, Ptr(('H', 'parg' + tag, 'PeerId')), Sym('reason' + tag, 'types::DisconnectReason')]
                     else:
                         args = [selfp, z3.BitVec('pid(new1)', 256) if a == 'add' else z3.BitVec('p', 256), z3.BitVec('sidarg' + tag, 64), Sym('reason' + tag, 'types::DisconnectReason')]
-                    ex.run_fn(fn, args, q, 0, k, 'op' + tag)
+                    ex.run_fn(fn, ex.adapt_args(fn, args, q), q, 0, k, 'op' + tag)
                 ex.results = []
                 run_op(a, '1', p, lambda q, ret: run_op(b, '2', q, lambda q2, ret2: finals.append(q2)))
                 total += len(finals)
